@@ -804,7 +804,7 @@ theorem pinned_limits_skip_cached_counterexample :
 /-! ## The include cache never outlives the limits -/
 
 /-- **cached_within_limits.** In every reachable state, every included file the loader holds
-    was admitted under the limits now in force: `SetLimits` empties the cache whenever the
+    passed the size check under the limits now in force: `SetLimits` empties the cache whenever the
     limits change. -/
 theorem cached_within_limits (hasClient : Bool) (es : List Event) (σ' : Srv)
     (h : run (newServer hasClient) es = .ok σ') : CacheOK σ' :=
